@@ -578,4 +578,17 @@ example :
     st.pol.map (·.minAvail) = some 2 ∧ st.pol.map (·.archiveMin) = some 2 ∧ st.pol.map (·.keys.length) = some 2 ∧
     st.archive.length = 3 := by decide
 
+/-! ### key rings written by older code: convergent scheme per key version -/
+
+/-- **Whatever encrypt accepts, decrypt accepts**: for every policy-level and per-key convergent scheme version, the
+key versions `encrypt` serves are exactly those `decrypt` serves (both judge the per-key effective version). -/
+theorem convergent_scheme_enc_dec_agree (polVer keyVer : Nat) :
+    convEncAccepts polVer keyVer = convDecAccepts polVer keyVer := rfl
+
+/-- **Finding F61 (repaired)**: judging the policy-level value on the decrypt side, a ring of the scheme-2 era
+(`polVer = 2`) that was rotated (new key version: scheme 3) encrypts under the new version but refuses to decrypt what it
+just produced. -/
+theorem convergent_scheme_policy_level_cex :
+    convEncAccepts 2 3 = true ∧ convDecAcceptsPolicyLevel 2 3 = false ∧ convDecAccepts 2 3 = true := by decide
+
 end C17
